@@ -165,6 +165,9 @@ def work(repo, tmp, out):
         finish(out, 2)
     for f in man["files"]:
         out["files"].append({"go": f["go"], "coq": f["module"] + ".v", "sha256": f["sha256"]})
+        for x in f.get("extra") or []:
+            gofile, _, sha = x.partition(" sha256 ")
+            out["files"].append({"go": gofile, "coq": f["module"] + ".v", "sha256": sha})
         for n in f["translated"] or []:
             out["function_names"].append(f["module"] + "." + n)
         for s in f["skipped"] or []:
